@@ -6,7 +6,7 @@
 //! flip, every byte substitution, every suffix/infix deletion and every 1-byte insertion
 //! inside the protected region is applied; oracle: accept(mutant) ⇒ logical(mutant) =
 //! logical(original).
-//! SEQ part: every history ≤ depth d over put_validated / get_validated / corrupt the
+//! SEQ part: every history ≤ depth d over put_with_validation / put_to_layer / get_with_validation / evict / corrupt the disk layer's file on MultiLayerCacheImpl[Memory(1),Disk] with MD5 hooks, and over put_validated / get_validated / corrupt the
 //! backing file (flip a bit, truncate, replace by another key's valid value, delete) on
 //! `ContentAddressedCache<DiskCache>`; oracle: a validating get returns Some(b) only if
 //! MD5(b) = key.
@@ -479,12 +479,15 @@ impl SeqSubject for CacheSubject {
                         Err(_) => log.push_str("get=err;"),
                     }
                 }
+                // the backing file is header + payload: faults change the payload and keep the
+                // header, so that the cache itself still accepts the file
                 Op::FlipBit(v) => {
                     let p = backing_file(&dir, *v);
                     if let Ok(mut d) = std::fs::read(&p) {
-                        if !d.is_empty() {
-                            let n = d.len();
-                            d[n / 2] ^= 0x10;
+                        let off = crate::util::disk_cache_payload_offset(&d);
+                        if d.len() > off {
+                            let i = off + (d.len() - off) / 2;
+                            d[i] ^= 0x10;
                             let _ = std::fs::write(&p, d);
                         }
                     }
@@ -492,13 +495,17 @@ impl SeqSubject for CacheSubject {
                 Op::Truncate(v) => {
                     let p = backing_file(&dir, *v);
                     if let Ok(d) = std::fs::read(&p) {
-                        let _ = std::fs::write(&p, &d[..d.len() / 2]);
+                        let off = crate::util::disk_cache_payload_offset(&d);
+                        let _ = std::fs::write(&p, &d[..off + (d.len() - off) / 2]);
                     }
                 }
                 Op::Replace(k, v) => {
                     let p = backing_file(&dir, *k);
-                    if p.exists() {
-                        let _ = std::fs::write(&p, value(*v));
+                    if let Ok(d) = std::fs::read(&p) {
+                        let off = crate::util::disk_cache_payload_offset(&d);
+                        let mut f = d[..off].to_vec();
+                        f.extend_from_slice(&value(*v));
+                        let _ = std::fs::write(&p, f);
                     }
                 }
                 Op::Delete(v) => {
@@ -506,6 +513,128 @@ impl SeqSubject for CacheSubject {
                 }
                 Op::Reopen => {
                     cache = mk();
+                }
+            }
+        }
+        SeqRun { violation: None, state_key: None, outcome: fnv64_str(&log), calls }
+    }
+}
+
+
+// ---------------------------------------------------------------- multi-layer validated reads (SEQ)
+
+#[derive(Clone, Debug, PartialEq)]
+pub enum LOp {
+    /// put_with_validation(key i, content key of value i, bytes of value i)
+    PutV(u8),
+    /// put_to_layer(key i, bytes of value j, layer): bytes that do not hash to key i's content key when i != j
+    PutLayer(u8, u8, u8),
+    /// get_with_validation(key i, Some(content key of value i))
+    GetV(u8),
+    /// plain put of another key: evicts key from the 1-entry memory layer
+    Evict,
+    FlipDisk(u8),
+    ReplaceDisk(u8, u8),
+    DeleteDisk(u8),
+}
+
+struct LayeredSubject;
+
+fn lkey(i: u8) -> crate::props::c11::SKey {
+    crate::props::c11::SKey(format!("obj{i}"))
+}
+
+impl SeqSubject for LayeredSubject {
+    type Op = LOp;
+    fn config_name(&self) -> String {
+        "MultiLayerCacheImpl[Memory(1),Disk]+Md5ValidationHooks".into()
+    }
+    fn sig_config(&self) -> String {
+        "multi-layer-validated".into()
+    }
+    fn alphabet(&self) -> Vec<LOp> {
+        vec![
+            LOp::PutV(1),
+            LOp::PutV(2),
+            LOp::PutLayer(1, 1, 1),
+            LOp::PutLayer(1, 2, 1),
+            LOp::PutLayer(1, 2, 0),
+            LOp::PutLayer(2, 2, 1),
+            LOp::GetV(1),
+            LOp::GetV(2),
+            LOp::Evict,
+            LOp::FlipDisk(1),
+            LOp::FlipDisk(2),
+            LOp::ReplaceDisk(1, 2),
+            LOp::DeleteDisk(1),
+        ]
+    }
+    fn run(&self, hist: &[LOp]) -> SeqRun {
+        use cascette_cache::config::{MemoryCacheConfig, MultiLayerCacheConfig};
+        use cascette_cache::traits::{AsyncCache, MultiLayerCache as _};
+        let sc = Scratch::new("c07m");
+        let dir = sc.path.join("cache");
+        let mem = MemoryCacheConfig::new().with_max_entries(1).with_default_ttl(Duration::from_secs(3600));
+        let disk = DiskCacheConfig::new(dir.clone()).with_default_ttl(Duration::from_secs(3600)).with_subdirectories(false, 1);
+        let cfg = MultiLayerCacheConfig::new().add_memory_layer(mem).add_disk_layer(disk);
+        // background tasks out of the way: ten-year intervals (the first tick runs on the empty cache)
+        let mut cache: cascette_cache::MultiLayerCacheImpl<crate::props::c11::SKey> = block_on(async { cascette_cache::MultiLayerCacheImpl::new(cfg) }).expect("multi-layer cache");
+        cache.set_validation_hooks(Some(Arc::new(cascette_cache::validation::Md5ValidationHooks::new())));
+        let file_of = |i: u8| dir.join(format!("obj{i}"));
+        let mut calls = 0u64;
+        let mut log = String::new();
+        for (i, op) in hist.iter().enumerate() {
+            calls += 1;
+            let fail = |kind: &str, d: String| SeqRun { violation: Some((i, kind.to_string(), d)), state_key: None, outcome: 0, calls };
+            match op {
+                LOp::PutV(v) => {
+                    let r = block_on(cache.put_with_validation(lkey(*v), ckey(*v), Bytes::from(value(*v))));
+                    log.push_str(&format!("putv={};", r.is_ok()));
+                }
+                LOp::PutLayer(k, v, layer) => {
+                    let r = block_on(cache.put_to_layer(lkey(*k), Bytes::from(value(*v)), *layer as usize));
+                    log.push_str(&format!("putl={};", r.is_ok()));
+                }
+                LOp::GetV(v) => match block_on(cache.get_with_validation(&lkey(*v), Some(ckey(*v)))) {
+                    Ok(Some(b)) => {
+                        let bytes = b.into_bytes();
+                        if crate::refmd5(&bytes) != *ckey(*v).as_bytes() {
+                            return fail("validated-get-serves-wrong-content", format!("get_with_validation(obj{v}, Some(its content key)) returned {} bytes whose MD5 is not the key (hooks installed)", bytes.len()));
+                        }
+                        log.push_str("getv=some;");
+                    }
+                    Ok(None) => log.push_str("getv=none;"),
+                    Err(_) => log.push_str("getv=err;"),
+                },
+                LOp::Evict => {
+                    let _ = block_on(cache.put(crate::props::c11::SKey("other".into()), Bytes::from_static(b"x")));
+                }
+                LOp::FlipDisk(v) => {
+                    let p = file_of(*v);
+                    if let Ok(mut d) = std::fs::read(&p) {
+                        let off = crate::util::disk_cache_payload_offset(&d);
+                        if d.len() > off {
+                            let ix = off + (d.len() - off) / 2;
+                            d[ix] ^= 0x10;
+                            let _ = std::fs::write(&p, d);
+                            log.push_str("flip;");
+                        }
+                    }
+                }
+                LOp::ReplaceDisk(k, v) => {
+                    let p = file_of(*k);
+                    if let Ok(d) = std::fs::read(&p) {
+                        let off = crate::util::disk_cache_payload_offset(&d);
+                        let mut f = d[..off].to_vec();
+                        f.extend_from_slice(&value(*v));
+                        let _ = std::fs::write(&p, f);
+                        log.push_str("repl;");
+                    }
+                }
+                LOp::DeleteDisk(v) => {
+                    if std::fs::remove_file(file_of(*v)).is_ok() {
+                        log.push_str("del;");
+                    }
                 }
             }
         }
@@ -521,6 +650,8 @@ pub fn run(tier: Tier, seed: u64) -> i32 {
     run_artifacts(&rep, tier);
     let st = explore(&CacheSubject, &SeqBounds::depth(tier.pick(4, 5)).with_budget(tier.pick(30, 600)), &rep);
     rep.extra("cache_part", json!({"depth_completed": st.completed_depth, "histories": st.histories, "violating": st.violations}));
+    let st2 = explore(&LayeredSubject, &SeqBounds::depth(tier.pick(4, 5)).with_budget(tier.pick(30, 600)), &rep);
+    rep.extra("multi_layer_part", json!({"depth_completed": st2.completed_depth, "histories": st2.histories, "violating": st2.violations}));
     rep.finish()
 }
 
